@@ -23,8 +23,6 @@ import (
 type c07Engine struct {
 	e         *Env
 	src, cold string
-	realOutMu sync.Mutex
-	realOut   map[string]string // default-source outputs seen so far -> where
 }
 
 // c07Plan is a history with the configuration it runs in.
